@@ -46,8 +46,12 @@ func run(seed int64, n int, dir string, _ []string) {
 	dml.BigKeyCorpus(g, o, root)
 	// corpus: multi-table DELETE / UPDATE over LEFT / RIGHT / FULL joins, unmatched records first / middle / last
 	dml.OuterJoinCorpus(g, o, root)
+	// corpus: multi-table UPDATE / DELETE over USING (…) / NATURAL joins, join column first / middle / last, SET columns before / after it
+	dml.UsingJoinCorpus(g, o, root)
 	// corpus: the witness of the known finding "a column added to a fixed-length table with explicit positions is not written by COMMIT"
 	dml.FixedAddWitness(g, o, root)
+	// corpus: every kind of successful change as the first / second / third change of a table of every file format, COMMIT, read back by a fresh process
+	dml.FormatCommitCorpus(g, o, root)
 
 	stmts := 0
 	for seq := 0; stmts < n; seq++ {
